@@ -656,6 +656,8 @@ class Interp:
             return VBool(t=z3.Implies(a.t, b.term()))
         if isinstance(f, ast.Name) and f.id == "old" and self.contracts is not None:
             return self.contracts.eval_old(self, node, fr)
+        if isinstance(f, ast.Name) and f.id == "pre" and self.contracts is not None and fr.func == "<spec>":
+            return self.contracts.eval_pre(self, node, fr)
         if isinstance(f, ast.Attribute) and f.attr in ("append", "extend") and isinstance(f.value, (ast.Name, ast.Attribute)):
             base = self.ev(f.value, fr)
             if isinstance(base, VBytes):
@@ -1598,13 +1600,17 @@ class Interp:
                 continue
 
     def st_For(self, node, fr):
-        lc = self.contracts.loop_contract(self, fr, node) if self.contracts is not None else None
-        if lc is not None:
-            return self.contracts.run_loop(self, lc, node, fr)
         it = self.ev(node.iter, fr)
         if isinstance(node, ast.AsyncFor):
             it = self.await_(it)
-        for x in self.iterate(it, node=node):
+        try:
+            items = self.iterate(it, node=node)
+        except Unsupported:
+            lc = self.contracts.loop_contract(self, fr, node) if self.contracts is not None else None
+            if lc is None:
+                raise
+            return self.contracts.run_loop(self, lc, node, fr, it)
+        for x in items:
             self.assign(node.target, x, fr)
             try:
                 self.exec_block(node.body, fr)
